@@ -46,6 +46,19 @@ Judge(e) ==
          LET exp == [b \in 1..256 |-> Compact(Dec(e.shape, Append(e.prefix, b - 1), 0))] IN
          Verdict(<< <<e.outs = exp, "decb">> >>,
                  [first_bad |-> IF e.outs = exp THEN 0 ELSE CHOOSE b \in 1..256 : Len(e.outs) < b \/ e.outs[b] # exp[b]])
+    [] e.op = "intb" ->          \* entire domain of a 16-bit integer encoder: 256 values for one high byte
+         LET exp == [lo \in 1..256 |-> LET v == <<lo - 1, e.hi>>  b == Enc(e.shape, v) IN <<b, v, Len(b)>>] IN
+         Verdict(<< <<\A i \in 1..256 : Len(e.outs[i]) = 3 /\ e.outs[i][1] = exp[i][1], "enc">>,
+                    <<e.outs = exp, "rt">> >>,
+                 [first_bad |-> IF e.outs = exp THEN 0 ELSE CHOOSE b \in 1..256 : Len(e.outs) < b \/ e.outs[b] # exp[b]])
+    [] e.op = "charb" ->         \* a block of 256 code points: every Unicode scalar value encodes as its one-scalar string and comes back
+         LET cp(i) == e.blk * 256 + i - 1
+             exp == [i \in 1..256 |-> IF IsScalar(cp(i)) THEN (LET u == Utf8Enc(cp(i)) IN << <<Len(u)>> \o u, cp(i), Len(u) + 1 >>) ELSE <<>>]
+             model == \A i \in 1..256 : IsScalar(cp(i)) => OneScalar(Utf8Enc(cp(i)))
+         IN Verdict(<< <<model, "specmodel">>,
+                       <<\A i \in 1..256 : IsScalar(cp(i)) => (Len(e.outs[i]) = 3 /\ e.outs[i][1] = exp[i][1]), "enc">>,
+                       <<e.outs = exp, "rt">> >>,
+                    [first_bad |-> IF e.outs = exp THEN 0 ELSE CHOOSE b \in 1..256 : Len(e.outs) < b \/ e.outs[b] # exp[b]])
     [] e.op = "fixb" ->          \* entire 16-bit domain of a fixed-width adapter: 256 outcomes for one high byte
          LET exp == [lo \in 1..256 |-> <<Enc(e.shape, <<lo - 1, e.hi>>), <<lo - 1, e.hi>>, 2>>] IN
          Verdict(<< <<e.outs = exp, "fixb">> >>,
